@@ -1,7 +1,7 @@
 // ---- round_prelude.rs: specification vocabulary of the rounding units (C03 / C10).
 // Only mathematical integers and small enums; nothing here depends on the word size.
 use core::cmp::Ordering;
-use core::ops::{Add, AddAssign, Sub, SubAssign, Mul, Neg, Shl, Div, Rem};
+use core::ops::{Add, AddAssign, Sub, SubAssign, Mul, Neg, Shl, Shr, Div, Rem};
 use vstd::std_specs::ops::*;
 use vstd::std_specs::cmp::*;
 
